@@ -52,8 +52,28 @@ func primedBuffer() *rjson.Buffer {
 // was last replaced by a fresh one (an "epoch" of at most 256 inputs / 2 MiB), so that a
 // history-dependent failure can be written down as a concrete, exactly reproducible case.
 type history struct {
-	docs  [][]byte
-	bytes int
+	docs   [][]byte
+	bytes  int
+	primed bool // the epoch's buffer started out deterministically primed (else brand new)
+	epochs int
+}
+
+// next starts a new epoch: one epoch in eight starts from a primed buffer, the others from a brand-new one.
+func (h *history) next() *rjson.Buffer {
+	h.docs, h.bytes = h.docs[:0], 0
+	h.epochs++
+	h.primed = h.epochs%8 == 1 // priming replays 12 000-deep documents: one epoch in eight
+	if h.primed {
+		return primedBuffer()
+	}
+	return &rjson.Buffer{}
+}
+
+func (h *history) marker() []string {
+	if h.primed {
+		return []string{primedHistory}
+	}
+	return []string{freshHistory}
 }
 
 func (h *history) add(in []byte) {
@@ -69,12 +89,47 @@ func (h *history) reset() { h.docs, h.bytes = h.docs[:0], 0 }
 // the deterministically primed one).
 const freshHistory = "fresh-buffer-history"
 
+// primedHistory: as freshHistory, but the epoch's buffer starts out primed.
+const primedHistory = "primed-buffer-history"
+
 func (h *history) steps(prop string) []core.Case {
 	out := make([]core.Case, 0, len(h.docs))
 	for _, d := range h.docs {
 		out = append(out, core.Case{Prop: prop, Kind: "prior", In: d})
 	}
 	return out
+}
+
+func isFreshHistory(c *core.Case) bool {
+	for _, s := range c.Strs {
+		if s == freshHistory || s == primedHistory {
+			return true
+		}
+	}
+	return false
+}
+
+var historyArenas = map[*core.Case][]byte{}
+
+// historyArena is one scratch slice per replayed case, large enough for its longest document.
+func historyArena(c *core.Case) []byte {
+	if a, ok := historyArenas[c]; ok {
+		return a
+	}
+	n := len(c.In)
+	for _, s := range c.Steps {
+		if len(s.In) > n {
+			n = len(s.In)
+		}
+	}
+	a := make([]byte, n+1)
+	historyArenas[c] = a
+	return a
+}
+
+func aliasInto(arena, doc []byte) []byte {
+	n := copy(arena, doc)
+	return arena[:n]
 }
 
 // replayBuffer builds the used buffer of a replay: primed, or fresh for epoch histories.
@@ -84,7 +139,7 @@ func replayBuffer(c *core.Case) *rjson.Buffer {
 			return &rjson.Buffer{}
 		}
 	}
-	return primedBuffer()
+	return primedBuffer() // primedHistory, and plain cases
 }
 
 // validOracle returns the reference verdict, whether the stdlib agrees, and whether the
@@ -105,7 +160,7 @@ func validOracle(in []byte) (want, oracleOK, nontrivial bool) {
 // CheckC01: Valid(in, buf) equals the reference verdict for buf nil / fresh / previously
 // used (primed deterministically, then used on the case's prior Steps).
 func CheckC01(c *core.Case) error {
-	in := []byte(c.In)
+	in := inputOf(c)
 	want, ok, _ := validOracle(in)
 	if !ok {
 		return errOracle
@@ -117,8 +172,18 @@ func CheckC01(c *core.Case) error {
 		return fmt.Errorf("Valid(in, fresh buffer) = %v, reference and encoding/json say %v", got, want)
 	}
 	b := replayBuffer(c)
-	for _, s := range c.Steps {
-		rjson.Valid(s.In, b)
+	if isFreshHistory(c) {
+		// the generators reuse one scratch slice for consecutive inputs (same first byte, new
+		// contents): replay the epoch the same way, every document written over the previous one
+		in = aliasInto(historyArena(c), in)
+		for _, s := range c.Steps {
+			rjson.Valid(aliasInto(historyArena(c), s.In), b)
+		}
+		in = aliasInto(historyArena(c), c.In)
+	} else {
+		for _, s := range c.Steps {
+			rjson.Valid(s.In, b)
+		}
 	}
 	if got := rjson.Valid(in, b); got != want {
 		return fmt.Errorf("Valid(in, used buffer) = %v, reference and encoding/json say %v (nil buffer gives %v)", got, want, rjson.Valid(in, nil))
@@ -130,9 +195,9 @@ var errOracle = fmt.Errorf("oracle disagreement: reference model and encoding/js
 
 type c01State struct {
 	r    *core.Rec
-	used rjson.Buffer
+	used *rjson.Buffer
 	hist history
-	prim *rjson.Buffer
+	prim *rjson.Buffer // unused in the hot loop since epochs alternate fresh/primed starts
 }
 
 func (s *c01State) input(kind string, in []byte) error {
@@ -157,19 +222,18 @@ func (s *c01State) input(kind string, in []byte) error {
 	if got := rjson.Valid(in, &rjson.Buffer{}); got != want {
 		return fmt.Errorf("Valid(in, fresh buffer) = %v, reference and encoding/json say %v", got, want)
 	}
-	if got := rjson.Valid(in, s.prim); got != want {
-		return fmt.Errorf("Valid(in, primed buffer) = %v, reference and encoding/json say %v", got, want)
+	if s.used == nil {
+		s.used = s.hist.next()
 	}
-	got := rjson.Valid(in, &s.used)
+	got := rjson.Valid(in, s.used)
 	if got != want {
-		c := &core.Case{Prop: "C01", Kind: kind, In: append([]byte(nil), in...), Steps: s.hist.steps("C01"), Strs: []string{freshHistory}}
+		c := &core.Case{Prop: "C01", Kind: kind, In: append([]byte(nil), in...), Steps: s.hist.steps("C01"), Strs: s.hist.marker()}
 		err := fmt.Errorf("Valid(in, long-lived buffer) = %v, reference and encoding/json say %v", got, want)
 		return &caseErr{c, err}
 	}
 	s.hist.add(in)
 	if s.hist.full() {
-		s.used = rjson.Buffer{}
-		s.hist.reset()
+		s.used = s.hist.next()
 	}
 	return nil
 }
